@@ -139,30 +139,69 @@ def opIvl (args impl : List String) : Verdict :=
     | _ => .fail "answer shape"
   | _ => .badCase "ivl (finite arguments expected)"
 
+/-- what the property says of one interpolated channel, judged on the implementation's own answer `v`: the first colour
+at ratio 0, the second at ratio 1, between them for ratios in [0,1] - and, as for fades (C02), less than one unit
+(+2^-10) from the exact linear interpolation clamped to 0..255.  The model's binary32 evaluation (`lerpChanF`, about which
+`lerp_zero/one/between` are proven) is one admissible answer, not the only one: an implementation that multiplies in double
+precision differs from it by one unit where the binary32 product rounds up to a whole number. -/
+def lerpChanOK (f s : Nat) (ratio : Rat) (v : Nat) : Option String :=
+  let exact : Rat := (f : Rat) + (((s : Int) - (f : Int) : Int) : Rat) * ratio
+  let cl : Rat := if exact < 0 then 0 else if exact > 255 then 255 else exact
+  if ratio = 0 ∧ v ≠ f then some "ratio 0 must give the first colour"
+  else if ratio = 1 ∧ v ≠ s then some "ratio 1 must give the second colour"
+  else if 0 ≤ ratio ∧ ratio ≤ 1 ∧ !(decide (min f s ≤ v) && decide (v ≤ max f s)) then
+    some "interpolated colour leaves the range spanned by the two colours"
+  else if absR ((v : Rat) - cl) < 1 + 1 / 1024 then none
+  else some s!"channel {v} is a unit or more away from the linear interpolation {ratToString cl}"
+
 def opLerp (args impl : List String) : Verdict :=
   match args with
   | [r1, g1, b1, r2, g2, b2, rt] =>
     match [r1, g1, b1, r2, g2, b2].map String.toNat?, fbitsArg rt with
     | [some a, some b, some c, some d, some e, some f], some (.fin ratio) =>
-      let exp := [lerpChanF a d ratio, lerpChanF b e ratio, lerpChanF c f ratio]
-      -- contract on the model's answer: first colour at 0, second at 1, between them for ratios in [0,1]
-      let between := fun (lo hi v : Nat) => min lo hi ≤ v ∧ v ≤ max lo hi
-      if 0 ≤ ratio ∧ ratio ≤ 1 ∧ !(between a d (exp.getD 0 0) ∧ between b e (exp.getD 1 0) ∧ between c f (exp.getD 2 0)) then
-        .fail "interpolated colour leaves the range spanned by the two colours"
-      else if ratio = 0 ∧ exp ≠ [a, b, c] then .fail "ratio 0 must give the first colour"
-      else if ratio = 1 ∧ exp ≠ [d, e, f] then .fail "ratio 1 must give the second colour"
-      else expectTokens (exp.map toString) impl ["lerp"]
+      -- the model's own answer meets the contract (a run-time instance of the theorems about it)
+      let m := [lerpChanOK a d ratio (lerpChanF a d ratio), lerpChanOK b e ratio (lerpChanF b e ratio), lerpChanOK c f ratio (lerpChanF c f ratio)]
+      match m.filterMap id with
+      | e0 :: _ => .fail s!"model: {e0}"
+      | [] =>
+        match impl.map String.toNat? with
+        | [some x, some y, some z] =>
+          match [lerpChanOK a d ratio x, lerpChanOK b e ratio y, lerpChanOK c f ratio z].filterMap id with
+          | e0 :: _ => .fail s!"{e0} (impl {" ".intercalate impl})"
+          | [] => .ok ["lerp"]
+        | _ => .fail s!"answer shape {impl}"
     | _, _ => .badCase "lerp"
   | _ => .badCase "lerp"
 
+/-- a whole row: first colour `f`, every second colour 0..255, ratios k/32 - the implementation's 256·33 answers as hex -/
 def opLerpRow (args impl : List String) : Verdict :=
-  match args.map String.toNat? with
-  | [some f] =>
-    let h := (List.range 256).foldl (fun (h : UInt64) s =>
-      (List.range 33).foldl (fun (h : UInt64) (k : Nat) =>
-        (h ^^^ UInt64.ofNat (lerpChanF f s (((k : Nat) : Rat) / 32))) * 1099511628211) h) (14695981039346656037 : UInt64)
-    expectTokens [toString h.toNat] impl ["lerp_row"]
-  | _ => .badCase "lerp_row"
+  match args.map String.toNat?, impl with
+  | [some f], [hx] =>
+    match hexToBytes hx with
+    | none => .fail "lerp_row: answer is not hex"
+    | some bs =>
+      if bs.length ≠ 256 * 33 then .fail s!"lerp_row: {bs.length} answers instead of 8448" else
+      let rec go (i : Nat) (l : List UInt8) : Option String :=
+        match l with
+        | [] => none
+        | v :: rest =>
+          match lerpChanOK f (i / 33) (((i % 33 : Nat) : Rat) / 32) v.toNat with
+          | some e => some s!"second colour {i / 33}, ratio {i % 33}/32: {e}"
+          | none => go (i + 1) rest
+      match go 0 bs with
+      | some e => .fail e
+      | none => .ok ["lerp_row"]
+  | _, _ => .badCase "lerp_row"
+
+/-- the reference-colour method is float arithmetic (a scaled minimum, three scaled subtractions, each truncated): the
+property demands that no channel exceeds the original; beyond that the implementation's answer has to stay within two units
+of the model's binary32 evaluation (one truncation in the white channel and one in the subtraction may each fall the
+other way when an intermediate product is rounded differently) -/
+def refAnswerOK (orig : Nat × Nat × Nat) (m a : Nat × Nat × Nat × Nat) : Option String :=
+  let near := fun (x y : Nat) => decide (x ≤ y + 2) && decide (y ≤ x + 2)
+  if a.1 > orig.1 ∨ a.2.1 > orig.2.1 ∨ a.2.2.1 > orig.2.2 then some "reference colour: a channel exceeds the original"
+  else if near a.1 m.1 && near a.2.1 m.2.1 && near a.2.2.1 m.2.2.1 && near a.2.2.2 m.2.2.2 then none
+  else some "reference colour: more than two units from the conversion formula"
 
 def opRgbw (args impl : List String) : Verdict :=
   match args with
@@ -178,8 +217,14 @@ def opRgbw (args impl : List String) : Verdict :=
     | [some r, some g, some b, some rr, some rg, some rb] =>
       let (mul, div) := refParams rr rg rb
       let (a, c, d, w) := rgbwReference r g b mul div
-      if a > r ∨ c > g ∨ d > b then .fail "reference-colour conversion exceeds an original channel"
-      else expectTokens [toString a, toString c, toString d, toString w] impl ["rgbw:ref"]
+      if a > r ∨ c > g ∨ d > b then .fail "model: reference-colour conversion exceeds an original channel"
+      else
+        match impl.map String.toNat? with
+        | [some x, some y, some z, some v] =>
+          match refAnswerOK (r, g, b) (a, c, d, w) (x, y, z, v) with
+          | some e => .fail s!"{e} (model {a} {c} {d} {w}, impl {" ".intercalate impl})"
+          | none => .ok ["rgbw:ref"]
+        | _ => .fail s!"answer shape {impl}"
     | _ => .badCase "rgbw"
   | _ => .badCase "rgbw"
 
@@ -250,10 +295,11 @@ def rgbwSeqGo : List String → List String → Conv → List String → Verdict
           match convContract c r g b (a0, a1, a2, a3) with
           | some m => .fail s!"step {st}: {m} (impl {ans})"
           | none =>
-            if c.convert r g b = (a0, a1, a2, a3) then rgbwSeqGo rest impl' c tags
-            else
-              let m := c.convert r g b
-              .fail s!"step {st}: model={m.1},{m.2.1},{m.2.2.1},{m.2.2.2} impl={ans}"
+            let m := c.convert r g b
+            let isRef : Bool := match c with | .ref _ _ _ => true | _ => false
+            if m = (a0, a1, a2, a3) then rgbwSeqGo rest impl' c tags
+            else if isRef ∧ (refAnswerOK (r, g, b) m (a0, a1, a2, a3)).isNone then rgbwSeqGo rest impl' c tags
+            else .fail s!"step {st}: model={m.1},{m.2.1},{m.2.2.1},{m.2.2.2} impl={ans}"
         | _, _ => .fail s!"step {st}: answer {ans}"
       | some _, [] => .fail "fewer answers than steps"
       | none, _ => .badCase "rgbwseq c"
@@ -266,18 +312,33 @@ def opRgbwRow (args impl : List String) : Verdict :=
   | m :: rest =>
     match rest.map String.toNat? with
     | some red :: ps =>
-      let conv : Nat → Nat → Nat → Nat × Nat × Nat × Nat :=
-        match m, ps with
-        | "r", [some rr, some rg, some rb] =>
+      match m, ps, impl with
+      | "r", [some rr, some rg, some rb], [hx] =>
+        -- reference colour: the implementation's 65536 answers (r g b w per colour) as hex, each held to `refAnswerOK`
+        match hexToBytes hx with
+        | none => .fail "rgbw_row: answer is not hex"
+        | some bs =>
+          if bs.length ≠ 4 * 65536 then .fail s!"rgbw_row: {bs.length} bytes instead of 262144" else
           let (mul, div) := refParams rr rg rb
-          fun r g b => rgbwReference r g b mul div
-        | _, _ => rgbwSubtractMin
-      let step (h : UInt64) (byte : Nat) : UInt64 := (h ^^^ UInt64.ofNat byte) * 1099511628211
-      let h := (List.range 256).foldl (fun (h : UInt64) g =>
-        (List.range 256).foldl (fun (h : UInt64) b =>
-          let (a, c, d, w) := conv red g b
-          step (step (step (step h a) c) d) w) h) (14695981039346656037 : UInt64)
-      expectTokens [toString h.toNat] impl ["rgbw_row"]
+          let rec go (i : Nat) (l : List UInt8) : Option String :=
+            match l with
+            | x :: y :: z :: v :: rest =>
+              let g := i / 256
+              let b := i % 256
+              match refAnswerOK (red, g, b) (rgbwReference red g b mul div) (x.toNat, y.toNat, z.toNat, v.toNat) with
+              | some e => some s!"colour {red} {g} {b}: {e} (impl {x.toNat} {y.toNat} {z.toNat} {v.toNat})"
+              | none => go (i + 1) rest
+            | _ => none
+          match go 0 bs with
+          | some e => .fail e
+          | none => .ok ["rgbw_row:ref"]
+      | _, _, _ =>
+        let step (h : UInt64) (byte : Nat) : UInt64 := (h ^^^ UInt64.ofNat byte) * 1099511628211
+        let h := (List.range 256).foldl (fun (h : UInt64) g =>
+          (List.range 256).foldl (fun (h : UInt64) b =>
+            let (a, c, d, w) := rgbwSubtractMin red g b
+            step (step (step (step h a) c) d) w) h) (14695981039346656037 : UInt64)
+        expectTokens [toString h.toNat] impl ["rgbw_row"]
     | _ => .badCase "rgbw_row"
   | _ => .badCase "rgbw_row"
 
